@@ -77,6 +77,35 @@ def scenario(rng):
         sc["speak"] = []
     rng.shuffle(q)
     sc["queries"] = q[:rng.choice([10, 14, 18])]
+    # an outsider that tried to get in and was refused is still an outsider: the observer knocks at the door of the
+    # hidden user's channel / the secret channel, in both worlds, and is turned away the same way in both
+    sc["attempt"] = []
+    k = rng.random()
+    target = "#sec" if variant.startswith("secret") else "#pub2"
+    if k < 0.3:
+        # its max_joins quota is used up (the refusal does not depend on the channel at all)
+        sc["cfg0"] = dict(sc["cfg0"], max_joins=2)
+        sc["cfg1"] = dict(sc["cfg1"], max_joins=2)
+        if not obs_member:
+            pub.append(("obs", "JOIN #pub1"))
+        pub.append(("obs", "JOIN #obsown"))
+        sc["attempt"] = [("obs", "JOIN " + target)]
+        sc["attempt_kind"] = "quota"
+    elif k < 0.5 and not variant.startswith("secret"):
+        kind = rng.choice(["key", "invite", "ban"])
+        sc["attempt_kind"] = kind
+        if kind == "key":
+            pub.append(("p3", "MODE #pub2 +k door"))
+            hid[:] = [(w_, "JOIN #pub2 door" if l == "JOIN #pub2" else l) for w_, l in hid]
+            sc["attempt"] = [("obs", "JOIN #pub2"), ("obs", "JOIN #pub2 wrongkey")]
+        elif kind == "invite":
+            pub.append(("p3", "MODE #pub2 +i"))
+            i = [l for _, l in hid].index("JOIN #pub2")
+            hid.insert(i, ("p3", "INVITE inv #pub2"))
+            sc["attempt"] = [("obs", "JOIN #pub2")]
+        else:
+            pub.append(("p3", "MODE #pub2 +b obs!*@*"))
+            sc["attempt"] = [("obs", "JOIN #pub2")]
     return sc
 
 
@@ -101,6 +130,14 @@ def run_world(binary, hooks, sc, hidden):
                 else:
                     w.do(who, what)
             w.settle()
+            refused = True
+            for who, what in sc.get("attempt", []):
+                lines = w.do(who, what)
+                if any(m.verb == "JOIN" for m in lines) or not any(m.is_numeric and m.verb[0] == "4" for m in lines):
+                    refused = False
+            if not refused:
+                raise NotRefused()
+            w.settle()
             transcripts = []
             for qline in sc["queries"]:
                 lines = w.do("obs", qline)
@@ -121,6 +158,10 @@ def run_world(binary, hooks, sc, hidden):
             w.close()
 
 
+class NotRefused(Exception):
+    """the observer's attempt to get in was not refused: the pair compares nothing"""
+
+
 def pair(args):
     binary, hooks, seed = args
     rng = random.Random(seed)
@@ -132,12 +173,15 @@ def pair(args):
     except (wire.Closed, wire.Timeout, OSError, RuntimeError) as ex:
         out["inconclusive"] = "twin pair: %r" % (ex,)
         return out
+    except NotRefused:
+        out["inconclusive"] = "twin pair: the observer's %s attempt was not refused" % sc.get("attempt_kind")
+        return out
     for q, x0, x1 in zip(sc["queries"], t0, t1):
         out["queries"] += 1
         verb = q.split()[0]
         form = ("none" if len(q.split()) == 1 else "list" if "," in q else
                 "mask" if ("*" in q or "?" in q) else "name")
-        out["classes"].append((sc["variant"], verb, form, sc["obs_mp"]))
+        out["classes"].append((sc["variant"], verb, form, sc["obs_mp"], sc.get("attempt_kind")))
         if x0 != x1:
             only0, only1 = twin.diff_transcripts(x0, x1)
             code = (eval(only1[0])[0] if only1 else eval(only0[0])[0]) if (only0 or only1) else "?"
@@ -183,7 +227,9 @@ def run(ctx):
                 "observer (plain / member of another channel shared with hidden members, multi-prefix on/off) issues 10-18 "
                 "LIST/NAMES/WHO/WHOIS queries (explicit names, comma lists, wildcard masks, no argument) in both; transcripts are "
                 "normalised (timestamps dropped, lines sorted, 353/319 merged into sets) and must be equal; in world 1 the "
-                "observer also speaks into the secret channel with every status prefix and no member may receive it; "
+                "observer also speaks into the secret channel with every status prefix and no member may receive it; in half "
+                "of the pairs the observer first tries to JOIN the hidden user's channel / the secret channel and is refused in "
+                "both worlds (max_joins quota used up, missing or wrong key, invite-only, banned): it stays an outsider; "
                 "distinct = (variant, query verb, argument form, multi-prefix)")
     res.floor("world_pairs", pairs, 200)
     res.floor("queries_compared", res.evaluations, 1000)
